@@ -1,12 +1,16 @@
 import N0Verif.Proofs.CompareCount
 import N0Verif.Proofs.CompareFaithful
 import N0Verif.Proofs.CompareSwap
+import N0Verif.Proofs.CompareSwapKeyed
+import N0Verif.Proofs.CompareFrame
 /-!
 # C09 — compare reports are faithful to the operands and leave them untouched
 
 Model: `N0Verif/Model/Compare.lean` (the code with fix patches C07-a, C08-a, C09-a applied).
 Operand purity is immediate in a pure model (values are immutable); it is carried by the
-correspondence harness (deep copies before/after), not claimed as a theorem.
+correspondence harness (deep copies before/after), not claimed as a theorem.  What is NOT immediate is the
+frame statement at the end of this file: which part of the operands the result depends on — the class tags
+(`n0dict`/`n0list` against plain `dict`/`list`) of the nodes below the roots (`C09_frame*`).
 -/
 namespace N0.C09
 open N0 N0.Compare
@@ -100,11 +104,79 @@ theorem C09_swap_partial (cfg : Cfg) (a b : Val) (r : Res) (htr : cfg.tr = []) (
        r'.otherUnique.Perm r.mirror.otherUnique ∧ r'.diffTypes.Perm r.mirror.diffTypes ∧ r'.diffs = r.diffs) :=
   swap_direct cfg a b r htr hd hw hw' h
 
-/-- the keyed entry point: stated, **not proved** (open: carried by the correspondence and the `swap`
-evaluator only).  Hypotheses: no transform, the types flag off (a clash inside a keyed list carries the
-left index only), `exclude_xpaths`/`compare_only` invariant under mirroring of `[i]<>[j]`
-(`C09_swap_keyed_exclude_cex`), unique dictionary keys, pairwise different item keys in every list. -/
+/-- the keyed entry point, as first stated (hypotheses: no transform, the types flag off — a clash inside a
+keyed list carries the index of the driving side only —, `exclude_xpaths`/`compare_only` invariant under
+mirroring of `[i]<>[j]` (`C09_swap_keyed_exclude_cex`), unique dictionary keys, pairwise different item keys
+in every list).  **Proved**: `C09_swap`; the hypothesis on the item keys turned out to be
+unnecessary (`C09_swap_keyed`). -/
 def C09_swap_stmt : Prop := swap_keyed_stmt
+
+theorem C09_swap : C09_swap_stmt := swap_keyed_stmt_holds
+
+/-- **C09 (swap, keyed/default comparison).** For `compare` (`n0list.compare`/`n0dict.compare`), every
+composite key, no `transform`, the types flag off, `exclude_xpaths`/`compare_only` that do not distinguish
+`[i]<>[j]` from `[j]<>[i]`, trees with unique dictionary keys — and **no assumption on the item keys**
+(repeated composite keys, `str()` collisions are allowed: the n-th item with key K on one side is paired
+with the n-th item with key K on the other side, whichever side drives the loop): swapping the operands
+swaps the two unique lists and mirrors each pair (`[i]<>[j]` becomes `[j]<>[i]`), as multisets of entries,
+and keeps the number of lines. -/
+theorem C09_swap_keyed (cfg : Cfg) (a b : Val) (r : Res) (htr : cfg.tr = []) (hd : cfg.direct = false)
+    (hty : cfg.fl.types = false)
+    (hex : ∀ p, excluded cfg (mirrorPath p) = excluded cfg p) (hon : ∀ p, onlyOk cfg (mirrorPath p) = onlyOk cfg p)
+    (hw : wf a = true) (hw' : wf b = true) (h : compareTop cfg a b = .ok r) :
+    ∃ r', compareTop cfg b a = .ok r' ∧
+      (r'.notEqual.Perm r.mirror.notEqual ∧ r'.selfUnique.Perm r.mirror.selfUnique ∧
+       r'.otherUnique.Perm r.mirror.otherUnique ∧ r'.diffTypes.Perm r.mirror.diffTypes ∧ r'.diffs = r.diffs) :=
+  swap_keyed cfg a b r htr hd hty hex hon hw hw' h
+
+/-- **C09 (swap, keyed comparison, every flag record).** With the types flag on, everything is mirrored as
+above except the *place* of a type clash found inside a keyed list (finding C09-b,
+`C09_swap_keyed_types_cex`): the `difftypes` entries of the two runs are the same pairs of values, flipped
+(`SwV.dt`), the other three lists are mirrored with their paths, the number of lines is the same. -/
+theorem C09_swap_keyed_all_flags (cfg : Cfg) (a b : Val) (r : Res) (htr : cfg.tr = []) (hd : cfg.direct = false)
+    (hex : ∀ p, excluded cfg (mirrorPath p) = excluded cfg p) (hon : ∀ p, onlyOk cfg (mirrorPath p) = onlyOk cfg p)
+    (hw : wf a = true) (hw' : wf b = true) (h : compareTop cfg a b = .ok r) :
+    ∃ r', compareTop cfg b a = .ok r' ∧ SwV r r' :=
+  compareTop_swap_keyed cfg a b r htr hd ⟨hex, hon⟩ hw hw' h
+
+/-- in particular the verdict of `compare` does not depend on the order of the operands -/
+theorem C09_swap_keyed_verdict (cfg : Cfg) (a b : Val) (r : Res) (htr : cfg.tr = []) (hd : cfg.direct = false)
+    (hex : ∀ p, excluded cfg (mirrorPath p) = excluded cfg p) (hon : ∀ p, onlyOk cfg (mirrorPath p) = onlyOk cfg p)
+    (hw : wf a = true) (hw' : wf b = true) (h : compareTop cfg a b = .ok r) :
+    verdict (compareTop cfg b a) = verdict (compareTop cfg a b) :=
+  verdict_swap_keyed cfg a b r htr hd ⟨hex, hon⟩ hw hw' h
+
+/-- without path filters the mirror-invariance hypotheses hold -/
+theorem C09_swap_keyed_default_filters (cfg : Cfg) (h : NoPathOpts cfg) :
+    (∀ p, excluded cfg (mirrorPath p) = excluded cfg p) ∧ (∀ p, onlyOk cfg (mirrorPath p) = onlyOk cfg p) :=
+  ⟨(swk_mirrorInv_noPathOpts h).excl, (swk_mirrorInv_noPathOpts h).only⟩
+
+/-- the full-strength statement — both entry points, **every** option and flag record — is false: see
+`C09_swap_transform_cex` (transform), `C09_swap_keyed_exclude_cex` (a pattern naming `[0]<>[1]`) and
+`C09_swap_keyed_types_cex` (place of a clash inside a keyed list) -/
+def C09_swap_full_stmt : Prop :=
+  ∀ (cfg : Cfg) (a b : Val) (r : Res), wf a = true → wf b = true → compareTop cfg a b = .ok r →
+    ∃ r', compareTop cfg b a = .ok r' ∧
+      (r'.notEqual.Perm r.mirror.notEqual ∧ r'.selfUnique.Perm r.mirror.selfUnique ∧
+       r'.otherUnique.Perm r.mirror.otherUnique ∧ r'.diffTypes.Perm r.mirror.diffTypes ∧ r'.diffs = r.diffs)
+
+theorem C09_swap_full_refuted : ¬ C09_swap_full_stmt := by
+  intro h
+  obtain ⟨r', hr', _⟩ := h swapCexCfg (.dict .n0 [(['k'], .none)]) (.dict .n0 [(['k'], .int 3)]) {}
+    (by decide) (by decide) swap_transform_cex.1
+  rw [swap_transform_cex.2] at hr'
+  cases hr'
+
+/-- the types flag on: `['1']` vs `[None, 1]` reports the clash at `[0]`, the swapped run at `[1]` (each run
+uses the index of its own left operand) — finding C09-b -/
+theorem C09_swap_keyed_types_cex :
+    (compareTop (Cfg.default ⟨true, false, false, false, false, true⟩ false)
+        (.list .n0 [.str ['1']]) (.list .n0 [.none, .int 1])).map (fun r => r.diffTypes.map (·.path))
+      = .ok [[.idx 0]] ∧
+    (compareTop (Cfg.default ⟨true, false, false, false, false, true⟩ false)
+        (.list .n0 [.none, .int 1]) (.list .n0 [.str ['1']])).map (fun r => r.diffTypes.map (·.path))
+      = .ok [[.idx 1]] :=
+  swap_keyed_types_cex
 
 /-- with a transform that changes types the ordered comparison is not symmetric either: `{k: None}` vs
 `{k: 3}` under a function mapping everything to a list returns normally one way and raises `TypeError`
@@ -126,6 +198,92 @@ theorem C09_swap_keyed_exclude_cex :
         (.list .n0 [.dict .n0 [(['i', 'd'], .str ['a']), (['v'], .int 1)]])).map (·.diffs) = .ok 2 :=
   swap_keyed_exclude_cex
 
+/-! ### frame: the class tags below the roots -/
+
+/-- the unrestricted statement "the result does not depend on the class tags below the roots (the code wraps
+sub-nodes with `n0list(...)`/`n0dict(...)` before recursing)", with `toN0` = `convert_recursively` and
+`Res.mapV toN0` = the same result with the shown values converted — **false**: `C09_tags_irrelevant_refuted` -/
+def C09_tags_irrelevant_stmt : Prop := frame_stmt
+
+theorem C09_tags_irrelevant_refuted : ¬ C09_tags_irrelevant_stmt := frame_stmt_false
+
+/-- the tags matter in exactly three places: (1) `type(a) == type(b)` — an `n0dict` against a plain `dict`
+under the same key is a type clash … -/
+theorem C09_frame_clash_cex :
+    (compareTop (Cfg.default Flags.init false) (.dict .n0 [(['a'], .dict .n0 [])]) (.dict .n0 [(['a'], .dict .plain [])])).map
+        (·.diffs) = .ok 1 ∧
+    (compareTop (Cfg.default Flags.init false) (toN0 (.dict .n0 [(['a'], .dict .n0 [])]))
+        (toN0 (.dict .n0 [(['a'], .dict .plain [])]))).map (·.diffs) = .ok 0 :=
+  frame_clash_cex
+
+/-- … (2) `direct_compare` on a plain list nested in a list: `AttributeError` … -/
+theorem C09_frame_attr_cex :
+    compareTop (Cfg.default Flags.init true) (.list .n0 [.list .plain [.int 1]]) (.list .n0 [.list .plain [.int 1]])
+      = .error .AttributeError ∧
+    (compareTop (Cfg.default Flags.init true) (toN0 (.list .n0 [.list .plain [.int 1]]))
+        (toN0 (.list .n0 [.list .plain [.int 1]]))).map (·.diffs) = .ok 0 :=
+  frame_attr_cex
+
+/-- … (3) `compare` on a plain `dict` that is a list item: `TypeError`. -/
+theorem C09_frame_type_cex :
+    compareTop (Cfg.default Flags.init false) (.list .n0 [.dict .plain [(['k'], .int 1)]])
+        (.list .n0 [.dict .plain [(['k'], .int 1)]]) = .error .TypeError ∧
+    (compareTop (Cfg.default Flags.init false) (toN0 (.list .n0 [.dict .plain [(['k'], .int 1)]]))
+        (toN0 (.list .n0 [.dict .plain [(['k'], .int 1)]]))).map (·.diffs) = .ok 0 :=
+  frame_type_cex
+
+/-- **C09 (frame).**  `transform` functions that do not look at containers (`LeafTransform`: identity on
+containers, scalars to scalars, `None` to a scalar or `None`; in particular no transform, `C09_frame_no_transform`),
+every other option and flag record, both entry points; roots of the same
+kind; below the roots every dictionary carries one tag `cd` and every list one tag `cl` (`tagsKids`).  Then the
+run on `(a, b)` and the run on the recursively converted trees `(toN0 a, toN0 b)` are related by `FrameRel`:
+the first returns `r` ⇒ the second returns `r` with the shown values converted; the first raises `e` ⇒ the
+second raises `e` too, **or** `e` is one of the two `isinstance` exceptions (`AttributeError`/`TypeError`) and
+the walked mode meets a plain container of the kind it checks (`TagErr`: `direct_compare` with plain lists,
+`compare` with plain dictionaries). -/
+theorem C09_frame (cfg : Cfg) (hl : LeafTransform cfg) (cd cl : Cls) (a b : Val) (hr : RootPair a b)
+    (ha : tagsKids cd cl a = true) (hb : tagsKids cd cl b = true) :
+    FrameRel (TagErr cfg cd cl) (compareTop cfg a b) (compareTop cfg (toN0 a) (toN0 b)) :=
+  frame_compareTop cfg hl cd cl a b hr ha hb
+
+/-- when `TagErr` is excluded the run IS the run on the converted trees (exception class included) … -/
+theorem C09_frame_exact (cfg : Cfg) (hl : LeafTransform cfg) (cd cl : Cls) (hT : ¬ TagErr cfg cd cl) (a b : Val)
+    (hr : RootPair a b) (ha : tagsKids cd cl a = true) (hb : tagsKids cd cl b = true) :
+    compareTop cfg (toN0 a) (toN0 b) = (compareTop cfg a b).map (Res.mapV toN0) :=
+  frame_exact cfg hl cd cl hT a b hr ha hb
+
+/-- … in particular for `compare()` on trees as `n0dict(json_text)` builds them — `n0dict`s everywhere, plain
+lists: the theorems stated for recursively converted trees (`isN0`, C07) describe these runs too … -/
+theorem C09_frame_loaded (cfg : Cfg) (hl : LeafTransform cfg) (hd : cfg.direct = false) (a b : Val)
+    (hr : RootPair a b) (ha : tagsKids .n0 .plain a = true) (hb : tagsKids .n0 .plain b = true) :
+    compareTop cfg (toN0 a) (toN0 b) = (compareTop cfg a b).map (Res.mapV toN0) :=
+  frame_keyed_loaded cfg hl hd a b hr ha hb
+
+/-- … and for `direct_compare` on trees with `n0list`s and plain dictionaries. -/
+theorem C09_frame_direct (cfg : Cfg) (hl : LeafTransform cfg) (hd : cfg.direct = true) (a b : Val)
+    (hr : RootPair a b) (ha : tagsKids .plain .n0 a = true) (hb : tagsKids .plain .n0 b = true) :
+    compareTop cfg (toN0 a) (toN0 b) = (compareTop cfg a b).map (Res.mapV toN0) :=
+  frame_direct_plainDicts cfg hl hd a b hr ha hb
+
+theorem C09_frame_verdict (cfg : Cfg) (hl : LeafTransform cfg) (cd cl : Cls) (hT : ¬ TagErr cfg cd cl) (a b : Val)
+    (hr : RootPair a b) (ha : tagsKids cd cl a = true) (hb : tagsKids cd cl b = true) :
+    verdict (compareTop cfg (toN0 a) (toN0 b)) = verdict (compareTop cfg a b) :=
+  frame_verdict cfg hl cd cl hT a b hr ha hb
+
+/-- the hypothesis on `transform` holds when there is none -/
+theorem C09_frame_no_transform (cfg : Cfg) (h : cfg.tr = []) : LeafTransform cfg := leafTransform_nil h
+
+/-- non-vacuity: `{'r': [1, {'k': [2]}]}` against `{'r': [{'k': [3]}, 1]}` with plain lists and `n0dict`s -/
+example : tagsKids .n0 .plain frLoadedA = true ∧ tagsKids .n0 .plain frLoadedB = true ∧
+    (compareTop (Cfg.default Flags.init false) frLoadedA frLoadedB).map (fun r => (r.diffs, r.selfUnique.map (·.path)))
+      = .ok (2, [[.key ['r'], .idx2 1 0, .key ['k'], .idx 0]]) ∧
+    (compareTop (Cfg.default Flags.init false) (toN0 frLoadedA) (toN0 frLoadedB)).map
+        (fun r => (r.diffs, r.selfUnique.map (·.path)))
+      = .ok (2, [[.key ['r'], .idx2 1 0, .key ['k'], .idx 0]]) := frLoaded_example
+example : RootPair frLoadedA frLoadedB := by simp [RootPair, frLoadedA, frLoadedB]
+example : ¬ TagErr (Cfg.default Flags.init false) .n0 .plain := by simp [TagErr, Cfg.default]
+example : TagErr (Cfg.default Flags.init true) .n0 .plain := by simp [TagErr, Cfg.default]
+
 /-! Non-vacuity: a pair whose report has a `[i]<>[j]` entry, a unique entry and a type clash. -/
 def exL : Val := .dict .n0 [(['r'], .list .n0 [.dict .n0 [(['i'], .str ['1']), (['v'], .int 1)], .dict .n0 [(['i'], .str ['2']), (['v'], .int 2)], .int 7])]
 def exR : Val := .dict .n0 [(['r'], .list .n0 [.dict .n0 [(['i'], .str ['2']), (['v'], .str ['2'])], .dict .n0 [(['i'], .str ['1']), (['v'], .int 5)]])]
@@ -135,5 +293,18 @@ example : (compareTop exCfg exL exR).map (fun r => (r.diffs, r.notEqual.map (·.
     = .ok (3, [[.key ['r'], .idx2 0 1, .key ['v']], [.key ['r'], .idx2 1 0, .key ['v']]], [[.key ['r'], .idx 2]]) := by decide
 example : getAt .left [.key ['r'], .idx2 0 1, .key ['v']] exL = some (.int 1)
     ∧ getAt .right [.key ['r'], .idx2 0 1, .key ['v']] exR = some (.int 5) := by decide
+
+/-! Non-vacuity of `C09_swap_keyed`: the same pair swapped — `[0]<>[1]` becomes `[1]<>[0]`, the unique item
+moves to the other list; and a pair with a REPEATED composite key (second `i=1` record) and a `str()` collision. -/
+example : exCfg.tr = [] ∧ exCfg.direct = false ∧ exCfg.fl.types = false := by decide
+example : (compareTop exCfg exR exL).map (fun r => (r.diffs, r.notEqual.map (·.path), r.otherUnique.map (·.path)))
+    = .ok (3, [[.key ['r'], .idx2 0 1, .key ['v']], [.key ['r'], .idx2 1 0, .key ['v']]], [[.key ['r'], .idx 2]]) := by decide
+def exDupL : Val := .list .n0 [.dict .n0 [(['i'], .str ['1']), (['v'], .int 1)], .int 1, .dict .n0 [(['i'], .str ['1']), (['v'], .int 2)]]
+def exDupR : Val := .list .n0 [.str ['1'], .dict .n0 [(['i'], .str ['1']), (['v'], .int 2)], .dict .n0 [(['i'], .str ['1']), (['v'], .int 2)], .dict .n0 [(['i'], .str ['1']), (['v'], .int 3)]]
+example : wf exDupL = true ∧ wf exDupR = true := by decide
+example : (compareTop exCfg exDupL exDupR).map (fun r => (r.diffs, r.notEqual.map (fun e => (e.path, e.kind)), r.otherUnique.map (·.path)))
+    = .ok (3, [([.idx2 0 1, .key ['v']], .lst), ([.idx2 1 0], .tup)], [[.idx 3]]) := by decide
+example : (compareTop exCfg exDupR exDupL).map (fun r => (r.diffs, r.notEqual.map (fun e => (e.path, e.kind)), r.selfUnique.map (·.path)))
+    = .ok (3, [([.idx2 0 1], .tup), ([.idx2 1 0, .key ['v']], .lst)], [[.idx 3]]) := by decide
 
 end N0.C09
